@@ -37,12 +37,11 @@ def rebin(a, newshape):
     '''
     assert len(a.shape) == len(newshape)
 
-    slices = [slice(0, old, float(old) / new)
-              for old, new in zip(a.shape, newshape)]
-    coordinates = np.mgrid[slices]
-    # choose the biggest smaller integer index
-    indices = coordinates.astype('i')
-    return a[tuple(indices)]
+    # choose the biggest smaller integer index; in integer arithmetic, as a
+    # float step old/new can give one index too many (e.g. 1 -> 49, 1 -> 425)
+    indices = [(np.arange(new) * old) // new
+               for old, new in zip(a.shape, newshape)]
+    return a[np.ix_(*indices)]
 
 
 def stf_kolmogorov(r):
